@@ -153,6 +153,15 @@ CHECKS["C01"] = dict(
     note="Body semantics is abstract in the model (any function of code, defaults and referenced values); sha256 truncation is treated as injective; symbols of the model are invocations (programs numbered topologically = recursion terminates). Histories are sampled.",
     ref="6/C01")
 
+CHECKS["C13"] = dict(
+    technique="Coq proof (state machine of the generation counter + version cache + per-rule change detection: every query answers with the from-scratch version, by an invariant over all event histories; key lemma: unchanged observations => same rule set and contents; refutation without identity comparison) + source facts + differential in-process event histories vs fresh interpreters",
+    text="Theorems over Version/VCache.v: worlds map names to definitions with fresh stamps per executed definition; if no rule collected in an earlier world observes a change (variable value, identity of a plain / memento function, definedness), the from-scratch version is unchanged (reachability both ways + contents); "
+         "for every history of Define / Alias / Query events, each query returns the from-scratch version of the current world (invariant J); refuted when memento-function rules only check 'still a memento function' (alias re-binding). Source facts: identity comparison in did_change; rule-less instances recompute. "
+         "Implementation: generated programs x histories of 4-12 in-process events {redefine memento / plain, new default, rebind / mutate variable, define undefined name, memento <-> plain, rebind alias, clone, unregistered wrapper, change-then-clone} with version queries after every event, "
+         "each answer compared with a fresh interpreter's version of the program as it stands; successive from-scratch versions compared with the model's version verdict.",
+    note="Not modelled in Coq: the version computed while a function is being decorated, clones / unregistered instances (they share or lack rules), the cluster lock; the harness exercises the first two against the implementation. Rebinding a variable of an unsupported type to a supported one is outside the property (untracked variable).",
+    ref="6/C13")
+
 NOT_YET = {}
 
 
